@@ -260,6 +260,8 @@ def make_local() -> None:
 
 make_local()
 
+from . import rtypes_nofuture  # noqa: E402,F401  (registers further catalogue entries)
+
 
 # ------------------------------------------------------------------ decoration-time table
 def decoration_table() -> list[dict]:
